@@ -156,6 +156,13 @@ impl Grapheme {
         if is_non_ascii_char_escaped {
             self.escape_non_ascii_chars(is_astral_code_point_converted_to_surrogate);
         }
+
+        for repetition in self.repetitions.iter_mut() {
+            repetition.escape_regexp_symbols(
+                is_non_ascii_char_escaped,
+                is_astral_code_point_converted_to_surrogate,
+            );
+        }
     }
 
     fn escape(&self, c: char, use_surrogate_pairs: bool) -> String {
